@@ -188,6 +188,15 @@ def finish_helpers(acc: Acc, case: dict, model: dict, where: str) -> None:
         if got != want:
             acc.violate("helper", {"helper": "Term.__str__"}, {**case, "where": where}, want, got,
                         f"str(Triangle(height={h})) = {got!r} with atol={model['atol']} rtol={model['rtol']} decimals={d}; expected {want!r}")
+    # a rule prints its weight unless it is close to 1 (the relative tolerance scales with the reference value 1)
+    for wgt in (1.14, 0.9):
+        is_one = abs(wgt - 1.0) <= model["atol"] + model["rtol"] * 1.0
+        want = "if a is b then c is d" + ("" if is_one else f" with {wgt:.{d}f}")
+        rule = fl.Rule()
+        rule.parse(f"if a is b then c is d with {wgt!r}")
+        if rule.text != want:
+            acc.violate("helper", {"helper": "Rule.text"}, {**case, "where": where}, want, rule.text,
+                        f"Rule.text = {rule.text!r} for weight {wgt} with atol={model['atol']} rtol={model['rtol']} decimals={d}; expected {want!r}")
     finish_cheap(acc, case, model, where)
 
 
